@@ -135,7 +135,7 @@ PROPS = {
         technique="Lean 4 theorems over an executable model + differential correspondence with the Go code",
     ),
     "C08": dict(
-        modules=["SpatialId.Props.C08", "SpatialId.Props.Facts.Shift"],
+        modules=["SpatialId.Props.C08", "SpatialId.Props.C08Count", "SpatialId.Props.Facts.Shift"],
         families=[("nbr", 12000, 80000), ("nN", 3000, 20000)],
         trusted_base=COMMON_TB,
         assumptions=["float64 math.Pow/math.Mod on integers below 2^53 are exact"],
@@ -176,7 +176,7 @@ PROPS = {
         technique="Lean 4 theorems over an executable model + differential correspondence with the Go code",
     ),
     "C11": dict(
-        modules=["SpatialId.Props.C11", "SpatialId.Props.Facts.Quadkey"],
+        modules=["SpatialId.Props.C11", "SpatialId.Props.C11List", "SpatialId.Props.Facts.Quadkey"],
         families=[("quadkey", 30000, 200000), ("quadkeyExh", 1, 1), ("qv", 4000, 20000), ("qvrt", 2000, 10000)],
         trusted_base=COMMON_TB + ["strconv.FormatInt(n, 4) = base-4 digits, most significant first, no leading zeros"],
         assumptions=["quadkey zoom 1..31 (keys below 2^62)"],
